@@ -456,9 +456,9 @@ var (
 	c37fsGood  = []string{"a", "b/c", "b/d", "e/f/g", "x_y", "r:t", "r:u"}
 	c37fsOdd   = []string{"b", "b/c/d", "e/f", "r/t", "r", "", "/", "a//", "./a", "b/../a", "a:", ":a", "e:f:g", "b::c"}
 	c37fsPref  = []string{"", "b", "e/f", "e", "a", "zz", "r", "b/", "/b", "b/c", "r:t", "e:f"}
-	c37sqlGood = []string{"r:t", "r:u", "s:t", "q/r:t", "s:dummy", "r:T"}
+	c37sqlGood = []string{"r:t", "r:u", "s:t", "q/r:t", "s:dummy", "r:T", "rr:t", "r/q:u"}
 	c37sqlOdd  = []string{"", "r", "r:", ":t", "a:b:c", "r/_manifests/tags:t", "/r:t", "r/:t"}
-	c37sqlPref = []string{"", "r/_manifests/tags", "/r/_manifests/tags", "r", "q/r/_manifests/tags", "zz", "s", "/s",
+	c37sqlPref = []string{"", "rr", "r/q/_manifests/tags", "r/_manifests/tags", "/r/_manifests/tags", "r", "q/r/_manifests/tags", "zz", "s", "/s",
 		"//r", "r/_manifests/tags/_manifests/tags", "q/r", "/", "r/"}
 	c37s3Good = []string{"a", "ab", "a/b", "a/c", "b:t", "d/e/f", "d/e/g", "c"}
 	c37s3Odd  = []string{"a/", "./a", "d//e/f", "", "/", "../x", "d/../c", "a/b/"}
@@ -471,10 +471,11 @@ var (
 	c37s3Roots = []string{"/root", "/root", "/root", "/r/s", "/", "/root/"}
 )
 
-func c37content(r *hlib.Rng) []byte {
-	switch r.Intn(10) {
-	case 0:
+func c37content(r *hlib.Rng, pctEmpty int) []byte {
+	if r.Chance(pctEmpty) {
 		return nil
+	}
+	switch r.Intn(9) + 1 {
 	case 1:
 		return []byte{0}
 	case 2:
@@ -513,11 +514,20 @@ func c37zsGen(r *hlib.Rng, maxk int) [][]int {
 
 func c37gen(r *hlib.Rng, cfg c37cfg, n int, pctGood int) []c37op {
 	var good, odd, pref []string
+	valid := pctGood == 100
+	// empty contents are outside the sql contract while gorm skips zero-valued assigns: rare in the valid stream
+	pctEmpty := 10
+	if valid && (cfg.shadow || cfg.a == kSQL) {
+		pctEmpty = 2
+	}
 	switch {
 	case cfg.shadow:
 		good, odd, pref = c37shGood, c37shOdd, c37shPref
 	case cfg.a == kFs:
 		good, odd, pref = c37fsGood, c37fsOdd, c37fsPref
+		if valid && r.Chance(70) {
+			good = c37fsGood[:5] // without ':' names: listings round-trip, so the oracle checks them
+		}
 	case cfg.a == kSQL:
 		good, odd, pref = c37sqlGood, c37sqlOdd, c37sqlPref
 	default:
@@ -528,7 +538,7 @@ func c37gen(r *hlib.Rng, cfg c37cfg, n int, pctGood int) []c37op {
 		k := r.Intn(100)
 		switch {
 		case k < 40:
-			ops = append(ops, c37op{k: 0, n: c37pick(r, good, odd, pctGood), c: c37content(r)})
+			ops = append(ops, c37op{k: 0, n: c37pick(r, good, odd, pctGood), c: c37content(r, pctEmpty)})
 		case k < 58:
 			ops = append(ops, c37op{k: 1, n: c37pick(r, good, odd, pctGood)})
 		case k < 72:
@@ -556,10 +566,10 @@ func c37gen(r *hlib.Rng, cfg c37cfg, n int, pctGood int) []c37op {
 		default:
 			switch {
 			case cfg.shadow:
-				ops = append(ops, c37op{k: 5, side: r.Bool(), n: c37pick(r, good, odd, 90), c: c37content(r)})
-			case cfg.a == kS3:
+				ops = append(ops, c37op{k: 5, side: r.Bool(), n: c37pick(r, good, odd, pctGood), c: c37content(r, pctEmpty)})
+			case cfg.a == kS3 && !valid:
 				key := c37s3Raw[r.Intn(len(c37s3Raw))]
-				ops = append(ops, c37op{k: 4, n: key, c: c37content(r)})
+				ops = append(ops, c37op{k: 4, n: key, c: c37content(r, pctEmpty)})
 			default:
 				ops = append(ops, c37op{k: 1, n: c37pick(r, good, odd, pctGood)})
 			}
